@@ -23,6 +23,9 @@ var Root = func() string {
 	return "/verif"
 }()
 
+// EvidenceDir overrides where evidence/<ID>.json goes (child processes of a check).
+var EvidenceDir string
+
 // Out is the stream for VIOLATION / KNOWN-FINDING lines. Harnesses that have
 // to silence library prints redirect fd 1 and point Out at the saved stdout.
 var Out = os.Stdout
@@ -256,8 +259,12 @@ func (r *Run) Finish() int {
 		ev["assumptions"] = []string{}
 	}
 	b, _ := json.MarshalIndent(ev, "", " ")
-	os.MkdirAll(filepath.Join(Root, "evidence"), 0o755)
-	if err := os.WriteFile(filepath.Join(Root, "evidence", r.ID+".json"), b, 0o644); err != nil {
+	edir := filepath.Join(Root, "evidence")
+	if EvidenceDir != "" {
+		edir = EvidenceDir
+	}
+	os.MkdirAll(edir, 0o755)
+	if err := os.WriteFile(filepath.Join(edir, r.ID+".json"), b, 0o644); err != nil {
 		fmt.Fprintln(os.Stderr, "cannot write evidence:", err)
 		return 2
 	}
